@@ -21,6 +21,17 @@ func boundaryCase(c *run.Ctx) run.Result {
 	high := (k/9)%2 == 1
 	offs := []float64{-1.5, -0.5, 0, 0.5, 1.5}
 	off := offs[(k/18)%5]
+	// Round 7 (C09-L): DIAGONAL placements. Cases beyond the base family put the same extreme at the same
+	// offset on two or three axes at once, so that the below-threshold samples lie in one block while the
+	// surface reaches into cells whose corners come from the edge- and corner-diagonal neighbour blocks only.
+	diag := k >= boundaryBase(c.Tier)
+	if diag {
+		kd := k - boundaryBase(c.Tier)
+		kind = []string{"sphere", "box", "capsule"}[kd%3]
+		domain = (kd / 3) % 3
+		high = (kd/9)%2 == 1
+		off = []float64{-0.5, 0.5, 0, -1.5, 1.5}[(kd/18)%5]
+	}
 
 	sc := &scenario{CPU: pickCPU(r), Cut: 0, Attr: modeling.PositionAttribute}
 	if r.Intn(3) == 0 || off == 0 {
@@ -31,6 +42,9 @@ func boundaryCase(c *run.Ctx) run.Result {
 	h := 1 / sc.CPU
 	shrink := -sc.Cut * sc.CPU // cells, strength 1
 	axes, n := pickStraddle(r, [4]float64{0, 0.5, 0.3, 0.2})
+	if diag {
+		axes, n = pickStraddle(r, [4]float64{0, 0, 0.5, 0.5})
+	}
 	sc.Straddle = n
 	var b [3]int
 	for a := range b {
@@ -50,6 +64,9 @@ func boundaryCase(c *run.Ctx) run.Result {
 			o, side = offs[r.Intn(5)], r.Intn(2) == 0
 			if o == 0 && sc.Cut == 0 {
 				o = 0.5
+			}
+			if diag {
+				o, side = off, high
 			}
 		}
 		first = false
@@ -138,9 +155,21 @@ func boundaryCase(c *run.Ctx) run.Result {
 	}
 	res := execute(c, sc)
 	res.Count("directed_boundary_cases", 1)
+	if diag {
+		res.Count("directed_diagonal_boundary_cases", 1)
+		res.SetAdd("diagonal_placements", fmt.Sprintf("%d axes high=%v off=%v", n, high, off))
+	}
 	res.SetAdd("boundary_placements", fmt.Sprintf("%s domain%d high=%v off=%v", kind, domain, high, off))
 	if res.Sig != "" {
 		res.Sig += fmt.Sprintf(" dom%d high%v off%v", domain, high, off)
 	}
 	return res
+}
+
+// boundaryBase: size of the base family; the diagonal family follows it.
+func boundaryBase(tier string) int {
+	if tier == "thorough" {
+		return 900
+	}
+	return 90
 }
